@@ -102,6 +102,19 @@ func (w *World) Locks() *LockModel {
 			for _, e := range lhs {
 				if sel, ok := ast.Unparen(e).(*ast.SelectorExpr); ok {
 					if v := fieldVar(f, sel); v != nil && m.isStoreField(v) && v != m.mtxField {
+						// a store into an object this very function has just allocated (x := &fileStore{…};
+						// x.f = …) is construction, wherever the constructor's code ended up
+						if id, ok := ast.Unparen(sel.X).(*ast.Ident); ok {
+							if rhs, _, ok := f.definedBy(f.Decl.Body, f.ObjOf(id)); ok {
+								r := ast.Unparen(rhs)
+								if u, ok := r.(*ast.UnaryExpr); ok && u.Op == token.AND {
+									r = ast.Unparen(u.X)
+								}
+								if _, isLit := r.(*ast.CompositeLit); isLit {
+									continue
+								}
+							}
+						}
 						m.sharedFld[v] = "fileStore." + v.Name()
 					}
 				}
